@@ -240,8 +240,26 @@ func (rn *runner) runHistory(h []Step, up bool) outcome {
 			s.crashViews(snaps)
 		}
 	}
+	s.templateProbes()
 	o.evs = s.evs
 	return o
+}
+
+// templateProbes ends a history with one update of every template that exists, towards a script it does
+// not have (q2, or q1 if it has q2): whatever the history did to the template/task associations - which
+// no API request shows - decides which tasks follow, and the model says which must.
+func (s *session) templateProbes() {
+	for _, id := range TplIDs {
+		cur := s.cat.Tpls[id]
+		if cur == "" || cur == "none" {
+			continue
+		}
+		other := "q2"
+		if cur == "q2" {
+			other = "q1"
+		}
+		s.request(Req{Op: "UpdateTpl", ID: id, Script: other}, false)
+	}
 }
 
 // runCrashThen: history h, crash after transaction k of its last request, then one more step.
@@ -301,6 +319,7 @@ func alphabet(tier string) []Step {
 		u("t", func(q *Req) { q.NewID = "t2" }),
 		u("t2", func(q *Req) { q.NewID = "t" }),
 		u("t", func(q *Req) { q.Tpl = "p" }),
+		u("t", func(q *Req) { q.Tpl = "p"; q.Vars = "vx" }), // what `kapacitor define t -template p -vars ...` sends
 		u("t", func(q *Req) { q.Tpl = "p2" }),
 		R(Req{Op: "DeleteTask", ID: "t"}),
 		R(Req{Op: "CreateTpl", ID: "p", Script: "q1"}),
@@ -333,6 +352,20 @@ func alphabet(tier string) []Step {
 		)
 	}
 	return a
+}
+
+// setups are the catalogues the second exhaustive sweep starts from.
+func setups() [][]Step {
+	c := func(id, script, tpl, dbrps, vars, status string) Step {
+		return R(Req{Op: "CreateTask", ID: id, Script: script, Tpl: tpl, DBRPs: dbrps, Vars: vars, Status: status})
+	}
+	ct := func(id, s string) Step { return R(Req{Op: "CreateTpl", ID: id, Script: s}) }
+	return [][]Step{
+		// both tasks on p (one enabled, one disabled with vars), nothing on p2
+		{ct("p", "q1"), ct("p2", "q2"), c("t", "", "p", "d1", "", "enabled"), c("t2", "", "p", "d1", "vx", "")},
+		// one task on each template, p2 declares its dbrp
+		{ct("p", "q1"), ct("p2", "qi"), c("t", "", "p", "d1", "", "enabled"), c("t2", "", "p2", "", "", "enabled")},
+	}
 }
 
 // scenarios are hand-written histories longer than the exhaustive bound: one per defect found,
@@ -371,6 +404,14 @@ func scenarios() [][]Step {
 		// batch task whose query is outside its dbrps: the definition is accepted, the start fails
 		{c("t", "sb", "", "d2", "", "enabled"), up(Req{ID: "t", DBRPs: "d1"}), restartStep, up(Req{ID: "t", DBRPs: "d2"}), up(Req{ID: "t", Status: "disabled"}), up(Req{ID: "t", Status: "enabled"}), restartStep, R(Req{Op: "DeleteTask", ID: "t"})},
 		{c("t", "sb", "", "d1", "", "enabled"), up(Req{ID: "t", DBRPs: "d2"}), up(Req{ID: "t", NewID: "t2"}), restartStep},
+		// PATCH naming the template the task already has (with vars): the template must still know the task
+		{ct("p", "q1"), c("t", "", "p", "d1", "", "enabled"), c("t2", "", "p", "d1", "", ""), up(Req{ID: "t", Tpl: "p", Vars: "vx"}), ut("p", "qv", ""), up(Req{ID: "t2", Tpl: "p", Vars: "vy"}), ut("p", "qv", ""), restartStep, ut("p", "q2", "")},
+		// template renamed onto an EXISTING template id: rejected, and nothing may have changed -
+		// tasks on the renamed one only / on both / on the target only / on neither
+		{ct("p", "q1"), ct("p2", "q2"), c("t", "", "p", "d1", "", "enabled"), c("t2", "", "p", "d1", "", ""), ut("p", "", "p2"), ut("p", "qv", "p2"), restartStep, ut("p2", "q1", ""), ut("p", "q2", "")},
+		{ct("p", "q1"), ct("p2", "q2"), c("t", "", "p", "d1", "", "enabled"), c("t2", "", "p2", "d1", "", "enabled"), ut("p", "", "p2"), ut("p2", "", "p"), restartStep, ut("p2", "q1", ""), ut("p", "q2", "")},
+		{ct("p", "q1"), ct("p2", "q2"), c("t", "", "p2", "d1", "", "enabled"), ut("p", "", "p2"), ut("p2", "q1", ""), ut("p", "q2", "")},
+		{ct("p", "q1"), ct("p2", "q2"), ut("p", "", "p2"), ut("p2", "", "p"), restartStep},
 		// --- type and dbrps are derived from the script in force ---
 		// plain task moved to a template that declares its dbrp; reload; back to a template without, with and without dbrps
 		{ct("p", "q1"), ct("p2", "qi"), c("t", "s1", "", "d1", "", "enabled"), up(Req{ID: "t", Tpl: "p2"}), restartStep, up(Req{ID: "t", Tpl: "p"}), up(Req{ID: "t", Tpl: "p2"}), up(Req{ID: "t", Tpl: "p", DBRPs: "d2"}), restartStep},
@@ -498,9 +539,9 @@ func Run(r *rt.Run) error {
 	}
 	t := r.NewTrace("trace")
 
-	maxLen, crashThenLen, nRandom, randLen := 3, 2, 150, 12
+	maxLen, crashThenLen, nRandom, randLen, setupLen := 3, 2, 150, 12, 2
 	if r.Thorough() {
-		maxLen, crashThenLen, nRandom, randLen = 4, 2, 2000, 16
+		maxLen, crashThenLen, nRandom, randLen, setupLen = 4, 2, 2000, 16, 2
 	}
 	alpha := alphabet(r.Tier)
 	stats := map[string]int{}
@@ -512,10 +553,33 @@ func Run(r *rt.Run) error {
 		h   []Step
 		ntx int
 	}
+	// Beyond length 3 (thorough) only the quick alphabet is used, on histories made of quick steps: the full
+	// alphabet at length 4 is 4x the work and did not fit the budget; its extra steps get length 3 here,
+	// length 6 in the set-up sweep and the random histories.
+	quickAlpha := alphabet("quick")
+	quickKeys := map[string]bool{}
+	for _, st := range quickAlpha {
+		quickKeys[st.key()] = true
+	}
+	allQuick := func(h []Step) bool {
+		for _, st := range h {
+			if !quickKeys[st.key()] {
+				return false
+			}
+		}
+		return true
+	}
 	for L := 1; L <= maxLen; L++ {
 		var jobs []job
 		for _, p := range level {
-			for _, st := range alpha {
+			ext := alpha
+			if L > 3 {
+				if !allQuick(p) {
+					continue
+				}
+				ext = quickAlpha
+			}
+			for _, st := range ext {
 				h := append(append([]Step(nil), p...), st)
 				jobs = append(jobs, job{h: h, up: true, crash: -1})
 			}
@@ -543,6 +607,34 @@ func Run(r *rt.Run) error {
 			}
 		})
 		level = next
+	}
+	// B1 again from catalogues that take four requests to build: two templates and two tasks, then every
+	// history of length <= setupLen (quick 2) on top, crash points and template probes as above.
+	for si, setup := range setups() {
+		level := [][]Step{setup}
+		for L := 1; L <= setupLen; L++ {
+			var jobs []job
+			for _, p := range level {
+				for _, st := range alpha {
+					jobs = append(jobs, job{h: append(append([]Step(nil), p...), st), up: true, crash: -1})
+				}
+			}
+			var next [][]Step
+			rn.runChunked(jobs, workers, func(k int, o outcome) {
+				if o.skipped {
+					stats["skipped_after_hangs"]++
+					return
+				}
+				emit(t, o)
+				stats[fmt.Sprintf("setup%d_histories", si+1)]++
+				stats["crash_points"] += o.nsnaps
+				if !o.inert {
+					next = append(next, jobs[k].h)
+					t.Distinct(keys(jobs[k].h))
+				}
+			})
+			level = next
+		}
 	}
 	// B3: crash at every transaction boundary of the last request of every short history, restart on
 	// the copy and continue with every request of the alphabet (what a hidden half-done state does later).
@@ -669,7 +761,7 @@ func Run(r *rt.Run) error {
 	r.Extra["shutdown_hangs"] = int(hangs.Load())
 	r.Extra["alphabet"] = len(alpha)
 	r.Extra["max_history_len"] = maxLen
-	r.Finish(fmt.Sprintf("every history of length <= %d over an alphabet of %d steps (task create/update/rename/enable/disable/delete, template create/update/rename/delete, clean restart) on a real task_store.Service + TaskMaster + Bolt file, except extensions of a step that committed no transaction and left the catalogue unchanged; the store is copied after every committed transaction of the last request and a fresh stack restarted on every copy; for histories of length <= %d every such crash is followed by every request of the alphabet; %d named scenarios with all their prefixes; %d seeded random histories of length %d..%d with crash-and-continue; non-trivial = history whose last step is not inert, distinct by step sequence",
+	r.Finish(fmt.Sprintf("every history of length <= %d (beyond 3: the 27 quick steps only) over an alphabet of %d steps (task create/update/rename/enable/disable/delete, template create/update/rename/delete, clean restart) on a real task_store.Service + TaskMaster + Bolt file, except extensions of a step that committed no transaction and left the catalogue unchanged; the store is copied after every committed transaction of the last request and a fresh stack restarted on every copy; for histories of length <= %d every such crash is followed by every request of the alphabet; %d named scenarios with all their prefixes; %d seeded random histories of length %d..%d with crash-and-continue; non-trivial = history whose last step is not inert, distinct by step sequence",
 		maxLen, len(alpha), crashThenLen, len(scenarios()), nRandom, randLen/2, randLen), false)
 	return nil
 }
